@@ -22,6 +22,14 @@ PRIOS = [None, 0.5]
 WANT = {"p1": "a", "p2": "b"}
 EVENTS = [("a", "b"), ("x", "b"), ("a", "y"), ("x", "y")]
 N_EVENT_PARAMS = 3
+# nested mode: event E(p1={"x": .., "y": ..}, p2=..); (pattern text, score = 0.9 per unmentioned entry on either level, mentioned entries)
+NESTED = [
+    ('p1={"x": "a"}', 0.81, ("x",)),
+    ('p1={"x": "a", "y": "b"}', 0.9, ("x", "y")),
+    ('p1={"x": "a"}, p2="c"', 0.9, ("x", "p2")),
+    ('p1={"x": "a", "y": "b"}, p2="c"', 1.0, ("x", "y", "p2")),
+]
+NESTED_WANT = {"x": "a", "y": "b", "p2": "c"}
 
 
 def competitor_space():
@@ -34,6 +42,15 @@ def program(comps, indirect):
         args = ", ".join(f'{p}="{WANT[p]}"' for p in MASKS[mi])
         dec = f'@loop("{loop}")\n' if loop != "L1" else ""
         pr = f"  priority {prio}\n" if prio is not None else ""
+        if indirect == "nested":
+            # specificity inside a dict-valued parameter
+            out.append(f"{dec}flow f{i}\n{pr}  match E({NESTED[mi][0]})\n  start Act{act}Action()\n  match Done()\n")
+            continue
+        if indirect == "prio-twice":
+            # the flow declares a priority more than once: the last declaration counts
+            pr = f"  priority 0.3\n  priority {prio if prio is not None else 1.0}\n"
+            out.append(f"{dec}flow f{i}\n{pr}  match E({args})\n  start Act{act}Action()\n  match Done()\n")
+            continue
         if indirect == "or-group":
             # odd competitors reach their action through an or-group of matches (forked heads that merge)
             grp = f"E({args}) or Zzz{i}()" if i % 2 == 0 else f"E({args})"
@@ -65,6 +82,8 @@ def score(comp, indirect=False, idx=0):
     score of their match on the internal Finished event is one common constant c > 0; only the
     declared priority of the wrapper scales it."""
     mi, act, loop, prio = comp
+    if indirect == "nested":
+        return (NESTED[mi][1] * (prio or 1.0),)
     s = 1.0
     s *= 0.9 ** (N_EVENT_PARAMS - len(MASKS[mi]))
     if indirect == "prio-in-wrapper":
@@ -118,6 +137,14 @@ def explore(task):
     src = program(comps, indirect)
     n = len(comps)
     events = [("ext", "E", {"p1": a, "p2": b, "p3": "c"}) for a, b in EVENTS]
+    nested = indirect == "nested"
+    if nested:
+        events = [("ext", "E", {"p1": {"x": x, "y": y}, "p2": z}) for x in ("a", "q") for y in ("b", "q") for z in ("c", "q")]
+
+    def fits_(comp, ev):
+        if nested:
+            return all(ev[k] == NESTED_WANT[k] for k in NESTED[comp[0]][2])
+        return fits(comp, ev)
 
     def alphabet(state, node):
         if node.depth == 0:
@@ -135,10 +162,12 @@ def explore(task):
                 return
             waiting = prev.aux["waiting"]
             ev = (aev[2]["p1"], aev[2]["p2"])
+            if nested:
+                ev = {"x": aev[2]["p1"]["x"], "y": aev[2]["p1"]["y"], "p2": aev[2]["p2"]}
             st = nxt.state
             starts = [e["type"] for e in st.outgoing_events if e["type"].startswith("StartAct")]
             others = [e["type"] for e in st.outgoing_events if not e["type"].startswith("StartAct")]
-            fit = [i for i in waiting if fits(comps[i], ev)]
+            fit = [i for i in waiting if fits_(comps[i], ev)]
             still = []
             expected_starts = []
             detail = {"event": ev, "fit": fit, "starts": starts, "taken": list(taken)}
@@ -239,6 +268,12 @@ def tasks(tier):
         if pair[0][3] is None and pair[1][3] is None:
             continue
         out.append((pair, "prio-in-wrapper", 2))
+    # the same table with every flow declaring its priority twice, and with the specificity inside a dict-valued parameter
+    for pair in itertools.product(redp, repeat=2):
+        out.append((pair, "prio-twice", 2))
+    nspace = [c for c in space if c[2] == "L1"]
+    for pair in itertools.product(nspace, repeat=2):
+        out.append((pair, "nested", 2))
     if tier == "quick":
         cur = [c for c in space if c[3] is None and c[2] == "L1"]
         for tr in itertools.product(cur, repeat=3):
